@@ -390,6 +390,13 @@ impl Ctx {
     }
     /// Returns false (and records the cap) if a new scope must not be started.
     pub fn may_start(&self, scope: &str) -> bool {
+        // debugging aid: VERIF_ONLY=<substring> runs only the scopes whose name contains it (the run is then reported as capped)
+        if let Ok(only) = std::env::var("VERIF_ONLY") {
+            if !scope.contains(&only) {
+                self.capped.store(true, Ordering::SeqCst);
+                return false;
+            }
+        }
         if self.over_budget() {
             self.capped.store(true, Ordering::SeqCst);
             self.scopes.lock().unwrap().push(Scope {
